@@ -66,7 +66,7 @@ func TestC03(t *testing.T) {
 	if !r.TooMany() && (only == "" || only == "conc") {
 		nc := r.Pick(50, 1000)
 		if race {
-			nc = r.Pick(12, 120)
+			nc = r.Pick(40, 200)
 		}
 		procs := []int{0}
 		if !r.Quick() && !race {
@@ -99,7 +99,7 @@ func TestC03(t *testing.T) {
 	if !r.TooMany() && (only == "" || only == "lin") {
 		nl := r.Pick(150, 3000)
 		if race {
-			nl = r.Pick(30, 300)
+			nl = r.Pick(60, 300)
 		}
 		run.Parallel(nl, 4, func(i int) {
 			if r.TooMany() {
